@@ -58,6 +58,10 @@ type Msg struct {
 	Charset  string      `json:"charset,omitempty"`
 	NoUA     bool        `json:"noua,omitempty"`
 	ReAdd    bool        `json:"readd,omitempty"` // files are added, removed with UnsetAll*, and added again
+	// Recycle: history — the Msg object carried other content before: 1 = decoy content (headers, two body parts,
+	// an attachment, an embed), then Reset(), then the content of this spec; 2 = the decoy was also rendered once
+	// before the Reset (a Msg re-used in a loop)
+	Recycle int `json:"recycle,omitempty"`
 }
 
 // Hooks lets a check wrap every content producer.
@@ -118,6 +122,21 @@ func Build(s Msg, h *Hooks) (*mail.Msg, error) {
 		if err != nil && firstErr == nil {
 			firstErr = err
 		}
+	}
+	if s.Recycle > 0 {
+		_ = m.From("decoy-sender@old.example")
+		_ = m.To("decoy-rcpt@old.example", "decoy-rcpt2@old.example")
+		_ = m.Cc("decoy-cc@old.example")
+		m.Subject("decoy subject of the previous use")
+		m.SetGenHeader("X-Decoy", "previous use")
+		m.SetBodyString(mail.TypeTextPlain, "decoy plain body\r\n")
+		m.AddAlternativeString(mail.TypeTextHTML, "<p>decoy html body</p>")
+		_ = m.AttachReader("decoy-attachment.bin", strings.NewReader("decoy attachment content"))
+		_ = m.EmbedReader("decoy-embed.png", strings.NewReader("decoy embed content"))
+		if s.Recycle == 2 {
+			_, _ = m.WriteTo(io.Discard)
+		}
+		m.Reset()
 	}
 	switch s.From {
 	case "-":
@@ -287,6 +306,9 @@ func (s Msg) Describe() string {
 	}
 	if s.SMIME != 0 {
 		fmt.Fprintf(&b, " smime=%d inter=%v", s.SMIME, s.Inter)
+	}
+	if s.Recycle != 0 {
+		fmt.Fprintf(&b, " recycled-msg=%d", s.Recycle)
 	}
 	return b.String()
 }
